@@ -135,6 +135,27 @@ def run(prog, tier) -> Result:
                 return None
             run_stack("R12.1", "MoneyMeta.remove_converter", f"remove {which} converter, stack of {n}", body_rem, judge_rem)
 
+    # the same converter registered twice with another one in between: unregistering it removes the most recent
+    # registration, not the first one
+    def body_dup(I, c):
+        cls, convs, stack = mk_stack(c, True, 0)
+        for cv in (convs[0], convs[1], convs[0]):
+            I.call_function(reg, [cls, cv], {})
+        c.st.c12 = (stack, list(stack.items), convs)
+        return I.call_function(rem, [cls, convs[0]], {})
+
+    def judge_dup(o):
+        stack, before, convs = o.state.c12
+        if o.kind == "raise":
+            return ("most recent converter cannot be unregistered", exc_sig(o))
+        if not same_list(before, [convs[0], convs[1], convs[0]]):
+            return ("three registrations do not give a stack of three", repr(before))
+        if not same_list(stack.items, [convs[0], convs[1]]):
+            return ("unregistering a converter that is registered twice does not remove its most recent registration",
+                    f"before {before!r}, after {stack.items!r}")
+        return None
+    run_stack("R12.1", "MoneyMeta.remove_converter", "remove the top converter, also registered further down", body_dup, judge_dup)
+
     # ---- R12.2 enter / exit pairing
     ent = prog.method("MoneyConverter", "__enter__")
     ext = prog.method("MoneyConverter", "__exit__")
@@ -281,13 +302,13 @@ def run(prog, tier) -> Result:
                   history(ops), judge_history, min_paths=2)
 
     # ---- R12.5 a money converter never returns None
-    from .c11 import mk_converter, _date
+    from .c11 import Scenario, reader_setup_for
 
-    def setup_call(c):
-        conv, base = mk_converter(c, prog, "int")
-        return [conv, c.qty("money", c.unit("cu", "M")), c.unit("ct", "M"), _date("effdate")], {}
-    cr.run("R12.5", prog.method("MoneyConverter", "__call__"), "never None", setup_call,
-           lambda o: ("money converter returns None", "") if (o.kind == "return" and isinstance(o.value, NoneV)) else None)
+    for pair, where in ((("base", "ca"), "in"), (("ca", "cb"), "in"), (("base", "cn"), "in"), (("base", "ca"), "next")):
+        cr.run("R12.5", prog.method("MoneyConverter", "__call__"),
+               f"never None ({pair[0]}->{pair[1]}, date {'in' if where == 'in' else 'outside'} the stored period)",
+               reader_setup_for(prog, "year", pair, where, "explicit", call=True),
+               lambda o: ("money converter returns None", "") if (o.kind == "return" and isinstance(o.value, NoneV)) else None)
 
     # ---- R12.6 "the same converter" is identity: `conv not in list` and `list.remove(conv)` compare with ==, so two
     # different converters (same coverage, different results) must not compare equal - evaluated on the classes' own
@@ -301,12 +322,14 @@ def run(prog, tier) -> Result:
             st = c.st
             ci = prog.cls(cname)
             if cname == "MoneyConverter":
-                c.new_type("M", **FLAVORS["money"])
-                base = c.unit("base", "M")
-                mk = lambda tag: ObjV(ci, tag, {"_base_currency": base, "_rate_dict": DictV([(TupleV([NONE, c.unit("ct", "M")]),
-                                                                                         c.num("rate" + tag, "dec"))]),
-                                                  "_type_of_validity": TypeV("NoneType"),
-                                                  "_get_dflt_effective_date": OpaqueV("fn:dfltdate")})
+                # two converters built alike (same base currency, same period and currencies) with different rates
+                first = []
+
+                def mk(tag):
+                    s = Scenario(c, prog, like=first[0] if first else None)
+                    first.append(s)
+                    s.update(NONE, (None, None, None), ["ca"], tag=tag)
+                    return s.conv
             else:
                 c.new_type("T", **FLAVORS["noref"])
                 u1, u2 = c.unit("u1", "T"), c.unit("u2", "T")
